@@ -32,6 +32,15 @@ class Probe(Aggregator):
         return u @ J
 
 
+class TwiceConstant(Constant):
+    """a user-defined subclass of a public weighted aggregator that post-processes the combination in `forward` (the
+    documented extension point): `backward` must deposit what THIS object returns on the Jacobian — not what its weighting
+    alone would give.  Model: Constant with doubled weights."""
+
+    def forward(self, matrix):
+        return 2 * super().forward(matrix)
+
+
 class BadLen(Aggregator):
     def __init__(self, k):
         super().__init__()
@@ -51,6 +60,8 @@ def make_agg(spec, dtype):
         return Constant(torch.tensor([float(x) for x in spec[1]], dtype=dtype))
     if k == "probe":
         return Probe(torch.tensor([float(x) for x in spec[1]], dtype=dtype))
+    if k == "sub":
+        return TwiceConstant(torch.tensor([float(x) for x in spec[1]], dtype=dtype))
     if k == "badlen":
         return BadLen(spec[1])
     raise AssertionError(spec)
@@ -92,6 +103,22 @@ def as_iterable(kind, xs):
     return list(xs)
 
 
+_CALLS = [0]
+
+
+def grad_mode():
+    """the public functions differentiate a graph that was recorded BEFORE the call: the grad mode in force DURING the call
+    (a `torch.no_grad()` / `torch.enable_grad()` block around an evaluation or logging step) must not matter.  Every 5th
+    real call runs under no_grad, every 7th under enable_grad (deterministic, seed-independent)."""
+    _CALLS[0] += 1
+    if _CALLS[0] % 5 == 0:
+        return torch.no_grad()
+    if _CALLS[0] % 7 == 0:
+        return torch.enable_grad()
+    import contextlib
+    return contextlib.nullcontext()
+
+
 def real_backward(P: Program, dtype, tensors, inputs, agg, chunk, retain, pre, report, ts=None, freeze=(),
                   inputs_kind="list", tensors_kind="list"):
     """freeze: leaves switched to requires_grad=False AFTER the forward pass (they are still in the graph);
@@ -103,9 +130,10 @@ def real_backward(P: Program, dtype, tensors, inputs, agg, chunk, retain, pre, r
     err = None
     try:
         ins_ = inputs if inputs is not None else sorted(P.reach_leaves(tensors))
-        backward(as_iterable(tensors_kind, [ts[i] for i in tensors]), make_agg(agg, jac_dtype(ts, ins_, dtype)),
-                 inputs=None if inputs is None else as_iterable(inputs_kind, [ts[i] for i in inputs]),
-                 retain_graph=retain, parallel_chunk_size=chunk)
+        with grad_mode():
+            backward(as_iterable(tensors_kind, [ts[i] for i in tensors]), make_agg(agg, jac_dtype(ts, ins_, dtype)),
+                     inputs=None if inputs is None else as_iterable(inputs_kind, [ts[i] for i in inputs]),
+                     retain_graph=retain, parallel_chunk_size=chunk)
     except Exception as e:  # noqa: BLE001
         err = classify_exc(e)
     return err, grads_of(ts, report), ts
@@ -123,10 +151,11 @@ def real_mtl(P: Program, dtype, losses, features, tasks, shared, agg, chunk, ret
     wrap = (lambda xs: (x for x in xs)) if as_generators else (lambda xs: xs)
     try:
         sh_ = shared if shared is not None else sorted(P.reach_leaves(features))
-        mtl_backward([ts[i] for i in losses], [ts[i] for i in features], make_agg(agg, jac_dtype(ts, sh_, dtype)),
-                     tasks_params=None if tasks is None else [wrap([ts[i] for i in tp]) for tp in tasks],
-                     shared_params=None if shared is None else wrap([ts[i] for i in shared]),
-                     retain_graph=retain, parallel_chunk_size=chunk)
+        with grad_mode():
+            mtl_backward([ts[i] for i in losses], [ts[i] for i in features], make_agg(agg, jac_dtype(ts, sh_, dtype)),
+                         tasks_params=None if tasks is None else [wrap([ts[i] for i in tp]) for tp in tasks],
+                         shared_params=None if shared is None else wrap([ts[i] for i in shared]),
+                         retain_graph=retain, parallel_chunk_size=chunk)
     except Exception as e:  # noqa: BLE001
         err = classify_exc(e)
     return err, grads_of(ts, report), ts
@@ -145,7 +174,12 @@ def _parse_outcome(rep):
     return (None if err == "none" else err), grads, sweeps
 
 
+def _model_agg(agg):
+    return ("const", [2 * x for x in agg[1]]) if agg[0] == "sub" else agg
+
+
 def model_backward(driver, P: Program, tensors, inputs, agg, chunk, retain, pre, report, freeze=()):
+    agg = _model_agg(agg)
     req = ["backward", P.to_sx(), ["tensors", list(tensors)], ["inputs", list(inputs)],
            ["agg", *agg], ["chunk", "none" if chunk is None else chunk], ["retain", bool(retain)],
            _pre_sx(pre, report), ["report", list(report)]]
@@ -155,6 +189,7 @@ def model_backward(driver, P: Program, tensors, inputs, agg, chunk, retain, pre,
 
 
 def model_mtl(driver, P: Program, losses, features, tasks, shared, agg, chunk, retain, pre, report, freeze=()):
+    agg = _model_agg(agg)
     req = ["mtl", P.to_sx(), ["losses", list(losses)], ["features", list(features)],
            ["tasks", *[list(tp) for tp in tasks]], ["shared", list(shared)],
            ["agg", *agg], ["chunk", "none" if chunk is None else chunk], ["retain", bool(retain)],
